@@ -58,32 +58,126 @@ func runC02(l *core.Ledger) {
 	l.With(map[string]string{"C07-E4": "C02-T8"}, func() { c07E4(l, r) })
 }
 
-// completion is a place where a reply loop fixes the call's outcome.
+// completion is a place where a reply loop fixes the call's outcome. When
+// the outcome values are merged from several exits (`break` to one common
+// assignment, phi nodes), there is one completion per incoming edge: via is
+// the predecessor the values came through, and all path conditions are
+// evaluated at the end of that block.
 type completion struct {
-	at  ssa.Instruction
-	err ssa.Value
+	at    ssa.Instruction
+	err   ssa.Value
+	reply ssa.Value
+	via   *ssa.BasicBlock
+	to    *ssa.BasicBlock // the merge block entered from via
+}
+
+// under reports whether this outcome only happens on paths through one of
+// the edges es: the edge it arrives on is one of them, or they dominate the
+// point it is decided at.
+func (c completion) under(fn *ssa.Function, es []sx.Edge) bool {
+	if c.via != nil {
+		for _, e := range es {
+			if e.From == c.via && e.To == c.to {
+				return true
+			}
+		}
+	}
+	return edgesDominate(fn, es, c.node())
+}
+
+// node is the program point whose path conditions characterise this outcome.
+func (c completion) node() sx.Node {
+	if c.via != nil {
+		return sx.Node{B: c.via, I: len(c.via.Instrs) - 1}
+	}
+	return sx.NodeOf(c.at)
+}
+
+// splitMerged expands a completion whose error (or reply) is a phi of the
+// block it executes in - or of a block that is left only towards it - into
+// one completion per incoming edge.
+func splitMerged(c completion, depth int) []completion {
+	ph, ok := c.err.(*ssa.Phi)
+	if !ok || depth > 3 {
+		if rp, isPhi := c.reply.(*ssa.Phi); !isPhi || depth > 3 || !mergeBlockOf(rp, c) {
+			return []completion{c}
+		}
+		ph = nil
+	}
+	var b *ssa.BasicBlock
+	if ph != nil {
+		if !mergeBlockOf(ph, c) {
+			return []completion{c}
+		}
+		b = ph.Block()
+	} else {
+		b = c.reply.(*ssa.Phi).Block()
+	}
+	var out []completion
+	for i, pred := range b.Preds {
+		n := completion{at: c.at, err: c.err, reply: c.reply, via: pred, to: b}
+		if ph != nil {
+			n.err = ph.Edges[i]
+		}
+		if rp, isPhi := c.reply.(*ssa.Phi); isPhi && rp.Block() == b {
+			n.reply = rp.Edges[i]
+		}
+		out = append(out, splitMerged(n, depth+1)...)
+	}
+	return out
+}
+
+// mergeBlockOf: the phi's block is where the completion's path conditions can
+// be read off its predecessors: the block of the completion itself (first
+// split) or of the predecessor we came through (nested merges), and it is not
+// a loop head (a loop-carried variable is not an exit merge).
+func mergeBlockOf(ph *ssa.Phi, c completion) bool {
+	b := ph.Block()
+	for _, p := range b.Preds {
+		if b.Dominates(p) {
+			return false
+		}
+	}
+	if c.via != nil {
+		return b == c.via
+	}
+	return b == c.at.Block() || b.Dominates(c.at.Block())
 }
 
 func completions(rl *replyLoop) []completion {
 	var out []completion
+	add := func(c completion) { out = append(out, splitMerged(c, 0)...) }
 	sx.AllInstrs(rl.fn, func(_ sx.Node, in ssa.Instruction) {
 		switch x := in.(type) {
 		case *ssa.Return:
 			n := len(x.Results)
 			if n >= 1 && isErrorType(x.Results[n-1].Type()) {
-				out = append(out, completion{x, x.Results[n-1]})
+				c := completion{at: x, err: x.Results[n-1]}
+				if n >= 2 {
+					c.reply = x.Results[0]
+				}
+				add(c)
 			}
 		case *ssa.Store:
 			if base, ok := fieldAddrOf(x.Addr, "err"); ok && isNamed(base.Type(), core.RootModule, "Async") {
-				out = append(out, completion{x, x.Val})
+				c := completion{at: x, err: x.Val}
+				// the reply stored with it: the store to .reply of the same base in this block
+				for _, y := range x.Block().Instrs {
+					if st, ok := y.(*ssa.Store); ok {
+						if b2, ok := fieldAddrOf(st.Addr, "reply"); ok && b2 == base {
+							c.reply = st.Val
+						}
+					}
+				}
+				add(c)
 			}
 		case *ssa.Call:
 			if f := x.Call.StaticCallee(); f != nil && f.Name() == "set" && f.Signature.Recv() != nil && isNamed(f.Signature.Recv().Type(), core.RootModule, "Correctable") && len(x.Call.Args) == 5 {
 				if c, ok := x.Call.Args[4].(*ssa.Const); ok && c.Value != nil && c.Value.String() == "true" {
-					out = append(out, completion{x, x.Call.Args[3]})
+					add(completion{at: x, err: x.Call.Args[3], reply: x.Call.Args[1]})
 				} else if !ok {
 					// non-constant done flag: treat as completion so that it is classified
-					out = append(out, completion{x, x.Call.Args[3]})
+					add(completion{at: x, err: x.Call.Args[3], reply: x.Call.Args[1]})
 				}
 			}
 		}
@@ -162,7 +256,6 @@ func c02Loop(l *core.Ledger, r *rt, rl *replyLoop) {
 	for i, c := range comps {
 		k := fmt.Sprintf("%s/completion%d", key, i)
 		pos := sx.PosOf(c.at)
-		node := sx.NodeOf(c.at)
 		if cst, ok := c.err.(*ssa.Const); ok && cst.IsNil() {
 			nSucc++
 			// success: content is C01-R1 / C11-K3; here: it must be under a quorum verdict
@@ -172,7 +265,7 @@ func c02Loop(l *core.Ledger, r *rt, rl *replyLoop) {
 				for _, qt := range rl.quorumTests(qf) {
 					es = append(es, edgeWhere(qt, true))
 				}
-				if edgesDominate(rl.fn, es, node) {
+				if c.under(rl.fn, es) {
 					okDom = true
 				}
 			}
@@ -188,13 +281,13 @@ func c02Loop(l *core.Ledger, r *rt, rl *replyLoop) {
 		switch {
 		case fields["cause"] != nil && sx.All(cause, sx.IsGlobalNamed("Incomplete")):
 			nEx++
-			l.Check(edgesDominate(rl.fn, exEdges, node), "C02-T1", k, pos, "Incomplete only under the exhaustion test", "Incomplete is reported on a path where the exhaustion test did not hold (some targeted node may still answer)")
+			l.Check(c.under(rl.fn, exEdges), "C02-T1", k, pos, "Incomplete only under the exhaustion test", "Incomplete is reported on a path where the exhaustion test did not hold (some targeted node may still answer)")
 		case fields["cause"] != nil && rl.hasCtx && sx.All(cause, func(o sx.Origin) bool {
 			cc, ok := o.V.(*ssa.Call)
 			return o.Kind == sx.KCall && ok && cc.Call.IsInvoke() && cc.Call.Method.Name() == "Err" && cc.Call.Value == rl.ctxVal
 		}):
 			nCtx++
-			l.Check(sx.EdgeDominates(rl.fn, rl.ctxEdge, node), "C02-T1", k, pos, "context error only inside the ctx.Done() case", "the context's error is reported outside the case that observed ctx.Done()")
+			l.Check(c.under(rl.fn, []sx.Edge{rl.ctxEdge}), "C02-T1", k, pos, "context error only inside the ctx.Done() case", "the context's error is reported outside the case that observed ctx.Done()")
 		default:
 			l.Bad("C02-T1", k, pos, "QuorumCallError with cause "+sx.OriginsString(cause)+": neither Incomplete nor the Err() of the context selected on")
 			continue
@@ -445,6 +538,21 @@ func c02T4(l *core.Ledger, r *rt) {
 				case *ssa.BinOp:
 					if u.Op == token.EQL || u.Op == token.GEQ || u.Op == token.NEQ || u.Op == token.LSS {
 						reaches = true
+					}
+				case *ssa.Go, *ssa.Call:
+					// (c) passed as a plain argument to the function holding the reply loop, which compares it
+					cc := sx.CallOf(u.(ssa.Instruction))
+					if callee := cc.StaticCallee(); callee != nil {
+						for i, a := range cc.Args {
+							if a != exp || i >= len(callee.Params) {
+								continue
+							}
+							for _, r2 := range *callee.Params[i].Referrers() {
+								if b, ok := r2.(*ssa.BinOp); ok && (b.Op == token.EQL || b.Op == token.GEQ || b.Op == token.NEQ || b.Op == token.LSS) {
+									reaches = true
+								}
+							}
+						}
 					}
 				}
 			}
